@@ -38,6 +38,7 @@ type c19Item struct {
 	kind   string
 	seed   uint64
 	region int // >= 0: index of the item's own region in the shared arena
+	light  bool // short payloads: many calls rather than long ones
 }
 
 // c19Arena hands every cipher/MAC item its own region of ONE backing array:
@@ -169,7 +170,10 @@ func c19Run(sh *c19Shared, it c19Item) (res uint64) {
 		// different goroutines are ordinary use (uplink/downlink of one context)
 		key := sh.keys[r.Intn(3)]
 		n := r.Range(0, 200)
-		if it.region >= 0 {
+		if it.light {
+			n = r.Range(1, 48)
+		}
+		if it.region >= 0 && !it.light {
 			n = 8*r.Range(1, 200) + r.Range(1, 7) // fills the region to an odd length: the next octets are the neighbour's
 			if n > c19RegionSize {
 				n = c19RegionSize - 3
@@ -189,6 +193,9 @@ func c19Run(sh *c19Shared, it c19Item) (res uint64) {
 	case "mac1", "mac2", "mac3":
 		key := sh.keys[r.Intn(3)]
 		msg := r.Bytes(r.Range(1, 1600))
+		if it.light {
+			msg = r.Bytes(r.Range(1, 48))
+		}
 		if it.region >= 0 {
 			msg = c19Place(sh, it.region, msg)
 		}
@@ -474,6 +481,9 @@ func c19Round(c *core.Ctx, k *core.Case) {
 	for g := 0; g < G; g++ {
 		for i := 0; i < per; i++ {
 			it := c19Item{kind: c19Kinds[(g+i)%len(c19Kinds)], seed: r.Uint64(), region: -1}
+			if len(k.I) > 4 && k.I[4] == 1 {
+				it.light = true
+			}
 			if len(k.I) > 3 && k.I[3] >= 0 {
 				it.kind = c19Kinds[k.I[3]]
 			}
@@ -719,6 +729,21 @@ func init() {
 		rounds := 3
 		if tier == "thorough" {
 			rounds = 24
+		}
+		// long storms of the keyed algorithms: 32 goroutines x 200 (thorough 2000) light items of one
+		// cipher / MAC kind, each item calling twice with its parameters — state kept per
+		// (key, IV) across calls needs many overlapping initialisations to go wrong
+		for ki, kind := range c19Kinds {
+			if !strings.HasPrefix(kind, "cipher") && !strings.HasPrefix(kind, "mac") {
+				continue
+			}
+			ki, kind := ki, kind
+			us = append(us, core.Unit{Name: "long-storm-" + kind, Weight: 120, Run: func(c *core.Ctx) {
+				k := &core.Case{Oracle: "round", Target: "nas", I: []int64{int64(c.R.Uint64() >> 1), 32, int64(c.Pick(200, 2000)), int64(ki), 1}}
+				c.Do(k)
+				c.NonTrivial(k.Hash())
+				c.Cover("storm", kind)
+			}})
 		}
 		for _, G := range []int{2, 4, 16, 64} {
 			for rd := 0; rd < rounds; rd++ {
